@@ -388,6 +388,50 @@ theorem spline_almost_mono_at_fixed_point (ε : γ) (hε : 0 ≤ ε) (cfg : Basi
     linarith
   exact splineVal_almost_mono _ _ ε hn hε hε0 c δ hδ0 hδ _ _ h0 (rescale_mono cfg x x' hxx) h1
 
+/-- the decreasing constraint on `c` is the increasing constraint on `-c` -/
+theorem conMatrix_monoDec_neg (n : Nat) (c : Nat → γ) :
+    conMatrix n c .monoDec = conMatrix n (fun j => - c j) .monoInc := by
+  funext i j
+  simp only [conMatrix, monoPen, maskedPen]
+  congr 1; funext k
+  have hm : monoMask false c k = monoMask true (fun j => - c j) k := by
+    simp only [monoMask, diffVec, Bool.false_eq_true, if_false, if_true]
+    by_cases h : 0 < c (k+1) - c k
+    · have h' : -c (k+1) - -c k < 0 := by linarith
+      simp [h, h']; linarith
+    · have h' : ¬ (-c (k+1) - -c k < 0) := by intro hh; apply h; linarith
+      simp [h, h']; linarith
+  rw [hm]
+
+/-- **function level, decreasing**: a fixed point of the monotone-decreasing soft constraint is non-increasing inside the
+term's domain up to `(n−1) (Σ|r_i| + ρ Σ|β_i|) / lamC` -/
+theorem spline_almost_anti_at_fixed_point (ε : γ) (hε : 0 ≤ ε) (cfg : BasisCfg γ) (hper : cfg.periodic = false)
+    (hn : cfg.order < cfg.nSplines) (hε0 : cfg.order = 0 → 0 < ε) (c r : Nat → γ) (lamC ρ : γ) (hl : 0 < lamC)
+    (hρ : 0 ≤ ρ)
+    (hfix : ∀ i < cfg.nSplines,
+      lamC * mulVec cfg.nSplines (conMatrix cfg.nSplines c .monoDec) c i + ρ * c i = r i)
+    (x x' : γ) (h0 : 0 ≤ cfg.rescale x) (hxx : x ≤ x') (h1 : cfg.rescale x' ≤ 1) :
+    splineFn ε cfg c x'
+      ≤ splineFn ε cfg c x
+        + ((cfg.nSplines - 1 : Nat) : γ)
+          * ((∑ i ∈ range cfg.nSplines, |r i| + ρ * ∑ i ∈ range cfg.nSplines, |c i|) / lamC) := by
+  have hneg : ∀ i < cfg.nSplines,
+      lamC * mulVec cfg.nSplines (conMatrix cfg.nSplines (fun j => - c j) .monoInc) (fun j => - c j) i + ρ * (- c i)
+        = - r i := by
+    intro i hi
+    have h := hfix i hi
+    rw [conMatrix_monoDec_neg] at h
+    have e : mulVec cfg.nSplines (conMatrix cfg.nSplines (fun j => - c j) .monoInc) (fun j => - c j) i
+        = - mulVec cfg.nSplines (conMatrix cfg.nSplines (fun j => - c j) .monoInc) c i := by
+      simp only [mulVec, sumTo_eq, mul_neg, Finset.sum_neg_distrib]
+    rw [e]; linarith
+  have key := spline_almost_mono_at_fixed_point ε hε cfg hper hn hε0 (fun j => - c j) (fun i => - r i) lamC ρ hl hρ hneg
+    x x' h0 hxx h1
+  have e1 : ∀ z, splineFn ε cfg (fun j => - c j) z = - splineFn ε cfg c z := by
+    intro z; simp [splineFn, Finset.sum_neg_distrib]
+  simp only [e1, abs_neg] at key
+  linarith
+
 end violation_bound
 
 /-- non-vacuity of the fixed-point hypothesis: `c = (1, 0)` violates monotone-increasing by `-1`; with
